@@ -242,6 +242,7 @@ func TestC05Supervisor(t *testing.T) {
 			wasClosed := d.closed
 			notesBefore := d.v.NotifyQueued()
 			droppedBefore := d.v.Dropped()
+			reactsBefore := len(d.v.Reacts())
 			got, ok := d.v.StepOne(h)
 			if !ok || got != e.kind {
 				d.fail(rt, "driver desync: popped %v ok=%v, mirror head %v", got, ok, evName(e.kind))
@@ -249,6 +250,13 @@ func TestC05Supervisor(t *testing.T) {
 			d.stepping = nil
 			d.modelApply(e)
 			d.checkState(rt, "step "+evName(e.kind))
+			// the reaction into NotConnected is what tears the TCP generation down: it may only be
+			// initiated by a step that actually takes the connection to NotConnected
+			for _, r := range d.v.Reacts()[reactsBefore:] {
+				if r.Next == nc && d.st != nc {
+					d.fail(rt, "step %s initiated a teardown (reaction %v->%v) although the session is %v", evName(e.kind), r.Prev, r.Next, d.st)
+				}
+			}
 			if wasClosed && (d.v.NotifyQueued() != notesBefore || d.v.Dropped() != droppedBefore) {
 				d.fail(rt, "a notification was emitted after Close had been processed")
 			}
